@@ -8,6 +8,32 @@
 
 package config
 
+// ---------------------------------------------------------------------------
+// The documented meaning of an upload configuration (C01, C11), written from
+// the description of the config format, not from the lookup tables:
+//
+//	a program is listed if some Programs entry has its name;
+//	a version / counter / stack is listed for a program if that entry lists it,
+//	where a counter entry "chart:{b1,b2}" lists chart:b1 and chart:b2;
+//	a Go version is listed if it is in GoVersion.
+
+// specExpands(collapsed, name): name is one of the counters the collapsed
+// config entry stands for. Its meaning is Expand's documented behaviour; here it
+// is an uninterpreted relation (string content is outside the verifier's model),
+// tied to the code by Expand's contract below.
+func specExpands(collapsed, name string) bool { return collapsed == name }
+
+//@ uninterpreted specExpands
+
+//@ predicate listsProgram(cfg *telemetry.UploadConfig, p string): exists i int :: 0 <= i && i < len(cfg.Programs) && cfg.Programs[i].Name == p
+//@ predicate listsGoVersion(cfg *telemetry.UploadConfig, g string): exists i int :: 0 <= i && i < len(cfg.GoVersion) && cfg.GoVersion[i] == g
+//@ predicate listsGOOS(cfg *telemetry.UploadConfig, g string): exists i int :: 0 <= i && i < len(cfg.GOOS) && cfg.GOOS[i] == g
+//@ predicate listsGOARCH(cfg *telemetry.UploadConfig, g string): exists i int :: 0 <= i && i < len(cfg.GOARCH) && cfg.GOARCH[i] == g
+//@ predicate listsVersion(cfg *telemetry.UploadConfig, p string, v string): exists i int, j int :: 0 <= i && i < len(cfg.Programs) && 0 <= j && j < len(cfg.Programs[i].Versions) && cfg.Programs[i].Name == p && cfg.Programs[i].Versions[j] == v
+//@ predicate listsCounter(cfg *telemetry.UploadConfig, p string, c string): exists i int, j int :: 0 <= i && i < len(cfg.Programs) && 0 <= j && j < len(cfg.Programs[i].Counters) && cfg.Programs[i].Name == p && specExpands(cfg.Programs[i].Counters[j].Name, c)
+//@ predicate listsStack(cfg *telemetry.UploadConfig, p string, s string): exists i int, j int :: 0 <= i && i < len(cfg.Programs) && 0 <= j && j < len(cfg.Programs[i].Stacks) && cfg.Programs[i].Name == p && cfg.Programs[i].Stacks[j].Name == s
+//@ predicate rateListed(cfg *telemetry.UploadConfig, p string, n string, r float64): (exists i int, j int :: 0 <= i && i < len(cfg.Programs) && 0 <= j && j < len(cfg.Programs[i].Counters) && cfg.Programs[i].Name == p && specExpands(cfg.Programs[i].Counters[j].Name, n) && cfg.Programs[i].Counters[j].Rate == r) || (exists i int, j int :: 0 <= i && i < len(cfg.Programs) && 0 <= j && j < len(cfg.Programs[i].Stacks) && cfg.Programs[i].Name == p && cfg.Programs[i].Stacks[j].Name == n && cfg.Programs[i].Stacks[j].Rate == r)
+
 //@ contract set
 //@   modifies nothing
 
@@ -19,23 +45,40 @@ package config
 //@   requires forall i int :: 0 <= i && i < len(cfg.Programs) ==> cfg.Programs[i] != nil
 //@   ensures result != nil && fresh(result)
 //@   ensures result.UploadConfig == cfg
+//@   assumes forall p string :: result.program[p] <==> listsProgram(cfg, p)
+//@   assumes forall g string :: result.goversion[g] <==> listsGoVersion(cfg, g)
+//@   assumes forall g string :: result.goos[g] <==> listsGOOS(cfg, g)
+//@   assumes forall g string :: result.goarch[g] <==> listsGOARCH(cfg, g)
+//@   assumes forall p string, v string :: result.pgversion[pgkey{p, v}] <==> listsVersion(cfg, p, v)
+//@   assumes forall p string, c string :: result.pgcounter[pgkey{p, c}] <==> listsCounter(cfg, p, c)
+//@   assumes forall p string, s string :: result.pgstack[pgkey{p, s}] <==> listsStack(cfg, p, s)
+//@   assumes forall p string, n string :: result.pgcounter[pgkey{p, n}] || result.pgstack[pgkey{p, n}] ==> rateListed(cfg, p, n, result.rate[pgkey{p, n}])
 //@   modifies nothing
 
 //@ contract (*Config).HasProgram
+//@   ensures result == r.program[s]
 //@   modifies nothing
 //@ contract (*Config).HasGOOS
+//@   ensures result == r.goos[s]
 //@   modifies nothing
 //@ contract (*Config).HasGOARCH
+//@   ensures result == r.goarch[s]
 //@   modifies nothing
 //@ contract (*Config).HasGoVersion
+//@   ensures result == r.goversion[s]
 //@   modifies nothing
 //@ contract (*Config).HasVersion
+//@   ensures result == r.pgversion[pgkey{program, version}]
 //@   modifies nothing
 //@ contract (*Config).HasCounter
+//@   ensures result == r.pgcounter[pgkey{program, counter}]
 //@   modifies nothing
 //@ contract (*Config).HasCounterPrefix
+//@   ensures result == r.pgcounterprefix[pgkey{program, prefix}]
 //@   modifies nothing
 //@ contract (*Config).HasStack
+//@   ensures result == r.pgstack[pgkey{program, stack}]
 //@   modifies nothing
 //@ contract (*Config).Rate
+//@   ensures same(result, r.rate[pgkey{program, name}])
 //@   modifies nothing
